@@ -8,6 +8,7 @@ package main
 
 import (
 	"fmt"
+	"os"
 	"go/token"
 	"go/types"
 	"regexp"
@@ -142,6 +143,45 @@ func evalCondWith(cond string, names []string, v int64) (bool, bool) {
 	return false, false
 }
 
+// solve: the set of values the rune named by these aliases can have (all aliases denote the same rune).
+// approx=true when some fact could not be expressed as an interval constraint (the set is then a superset).
+func (m *LexModel) solve(st *State, names []string) (set []ivl, approx bool) {
+	set = []ivl{{0, maxRune}}
+	for _, n := range names {
+		if ex, ok := st.Facts["v:"+n]; ok && ex.K == KInt {
+			set = intersect(set, ex.I, ex.I)
+		}
+		if ne, ok := st.Facts["ne:"+n]; ok {
+			for _, part := range strings.Split(ne.S, "|") {
+				if c, err := strconv.ParseInt(part, 10, 64); err == nil {
+					set = append(intersect(set, -1, c-1), intersect(set, c+1, maxRune)...)
+				}
+			}
+		}
+	}
+	for k, f := range st.Facts {
+		if !strings.HasPrefix(k, "c:") || f.K != KBool {
+			continue
+		}
+		cond := k[2:]
+		hit := ""
+		for _, n := range names {
+			if strings.Contains(cond, n) {
+				hit = n
+			}
+		}
+		if hit == "" {
+			continue
+		}
+		var ok bool
+		set, ok = constrain(set, strings.ReplaceAll(cond, hit, "X"), f.B, "X")
+		if !ok {
+			approx = true
+		}
+	}
+	return set, approx
+}
+
 func (m *LexModel) exact(st *State, names []string) (int64, bool) {
 	for _, n := range names {
 		if ex, ok := st.Facts["v:"+n]; ok && ex.K == KInt {
@@ -227,6 +267,29 @@ func (m *LexModel) consume(st *State, in ssa.Instruction, consumedName string, e
 		poss = append(poss, strconv.QuoteRune(rune(v)))
 	}
 	e.KV["may"] = strings.Join(poss, "")
+	if set, approx := m.solve(st, cur); true {
+		if exact != nil {
+			set = intersect(set, *exact, *exact)
+		}
+		e.KV["set"] = ivlString(set)
+		if approx {
+			e.KV["set"] += " (approx)"
+		}
+	}
+	if set, approx := m.solve(st, m.aliases(st, "next")); true {
+		e.KV["next-set"] = ivlString(set)
+		if approx {
+			e.KV["next-set"] += " (approx)"
+		}
+	}
+	if os.Getenv("LEXDEBUG") != "" {
+		var fs []string
+		for k, v := range st.Facts {
+			fs = append(fs, k+"="+v.String())
+		}
+		sort.Strings(fs)
+		e.KV["facts"] = strings.Join(fs, " ; ") + " || cur=" + strings.Join(cur, ",")
+	}
 	nxt := m.aliases(st, "next")
 	var nposs []string
 	for _, v := range m.possible(st, nxt, probes) {
@@ -393,6 +456,14 @@ func (m *LexModel) Call(mc *Machine, st *State, call ssa.CallInstruction, callee
 		return outs, true
 	case "advance":
 		name := "ad" + valName
+		if set, _ := m.solve(st, m.aliases(st, "cur")); len(set) == 0 {
+			return []Outcome{}, true // the facts assumed along this path contradict each other: infeasible
+		}
+		if nx := m.aliases(st, "next"); len(nx) > 0 {
+			if set, _ := m.solve(st, nx); len(set) == 0 {
+				return []Outcome{}, true
+			}
+		}
 		return []Outcome{{Result: Sym(name), Apply: func(s *State) {
 			m.consume(s, in, name, nil, "advance")
 		}}}, true
